@@ -328,17 +328,27 @@ def check_priority_req_store(p, r):
             why = 'self.key is assigned after super().__init__ enqueued the request'
         else:
             v = key_assign.value
-            if isinstance(v, ast.Tuple) and len(v.elts) == 2 and ast.unparse(v.elts[0]) == 'self.priority' and ast.unparse(v.elts[1]) == 'self.time':
-                # self.priority from the parameter, self.time from env.now
-                pr = [n for n in walk_no_nested(init.node) if isinstance(n, ast.Assign) and any(self_attr(t) == 'priority' for t in n.targets)]
-                tm = [n for n in walk_no_nested(init.node) if isinstance(n, ast.Assign) and any(self_attr(t) == 'time' for t in n.targets)]
-                if pr and isinstance(pr[0].value, ast.Name) and pr[0].value.id == 'priority' and tm and ast.unparse(tm[0].value).endswith('.now') \
-                        and pr[0].lineno < key_assign.lineno and tm[0].lineno < key_assign.lineno:
+            # what each component *is*, through the locals and attributes assigned before it (not how it is spelled)
+            binds = {}
+            for n in sorted([x for x in walk_no_nested(init.node) if isinstance(x, ast.Assign) and x.lineno < key_assign.lineno], key=lambda x: x.lineno):
+                for t in n.targets:
+                    if isinstance(t, ast.Name) or self_attr(t) is not None:
+                        binds[ast.unparse(t)] = n.value
+
+            def resolve(e, depth=0):
+                t = ast.unparse(e)
+                if t in binds and depth < 5:
+                    return resolve(binds[t], depth + 1)
+                return t
+            params = [a_.arg for a_ in init.node.args.args]
+            if isinstance(v, ast.Tuple) and len(v.elts) == 2:
+                r0, r1 = resolve(v.elts[0]), resolve(v.elts[1])
+                if r0 in params and r0 == 'priority' and r1.endswith('.now'):
                     good = True
                 else:
-                    why = 'self.priority / self.time are not taken from the priority parameter / env.now before the key is built'
+                    why = f'key is ({r0}, {r1}): expected (the priority parameter, the clock at request time)'
             else:
-                why = f'key is `{ast.unparse(v)}`, expected (self.priority, self.time)'
+                why = f'key is `{ast.unparse(v)}`, expected (priority, time)'
         (r.ok if good else r.fail)('C05.R4', key, 'key = (priority, time) assigned before super().__init__' if good else why, src(rel), init.node.lineno)
     st = p.cls(rel, 'PriorityReqStore')
     key = f'{rel}::PriorityReqStore::queues'
